@@ -30,7 +30,15 @@ pub fn value() -> BoxedStrategy<Vec<u8>> {
 }
 
 pub fn entry(max_attrs: usize, max_vals: usize) -> BoxedStrategy<Entry> {
-    let name = prop_oneof![3 => gens::descr(), 1 => gens::oid(), 1 => gens::text(5), 1 => Just(String::new())];
+    // attribute descriptions: bare, or with options (;binary in any letter case, language tags, several options)
+    let opt = prop_oneof![3 => Just(String::new()), 1 => proptest::sample::select(&[";binary", ";BINARY", ";Binary", ";lang-en", ";lang-en;binary", ";binary;x-1", ";x-binary", ";range=0-1"][..]).prop_map(String::from)];
+    let name = prop_oneof![
+        3 => (gens::descr(), opt.clone()).prop_map(|(d, o)| format!("{}{}", d, o)),
+        1 => (gens::oid(), opt).prop_map(|(d, o)| format!("{}{}", d, o)),
+        1 => proptest::sample::select(&["userCertificate;binary", "cACertificate;binary", "jpegPhoto", "objectGUID", "USERCERTIFICATE;BINARY"][..]).prop_map(String::from),
+        1 => gens::text(5),
+        1 => Just(String::new())
+    ];
     (gens::long_text(), vec((name, vec(value(), 0..=max_vals)), 0..=max_attrs))
         .prop_map(|(dn, attrs)| {
             // descriptions must be distinct: disambiguate duplicates with an option suffix
@@ -125,7 +133,7 @@ pub fn property() -> Property {
     Property {
         id: "C15",
         level: "exploration",
-        rule: "generated entries: any UTF-8 DN (incl. empty, multi-byte, >64 KiB), 0-8 attributes with distinct descriptions, 0-6 values each drawn from {valid UTF-8, empty, invalid UTF-8 (truncated sequences, surrogates, overlongs, random bytes), long}, harness-encoded with generated BER length forms, parsed by lber and fed to SearchEntry::construct; oracle: dn equal, every attribute in exactly one map, text map iff all values UTF-8 with values in order, else binary map holds exactly the multiset. Non-trivial: >=1 attribute mixing valid and invalid UTF-8 values. Distinct = hash of the entry.",
+        rule: "generated entries: any UTF-8 DN (incl. empty, multi-byte, >64 KiB), 0-8 attributes with distinct descriptions (bare descriptors, OIDs, arbitrary text, with options such as ;binary in any letter case, ;lang-en, several options), 0-6 values each drawn from {valid UTF-8, empty, invalid UTF-8 (truncated sequences, surrogates, overlongs, random bytes), long}, harness-encoded with generated BER length forms, parsed by lber and fed to SearchEntry::construct; oracle: dn equal, every attribute in exactly one map, text map iff all values UTF-8 with values in order, else binary map holds exactly the multiset. Non-trivial: >=1 attribute mixing valid and invalid UTF-8 values. Distinct = hash of the entry.",
         assumptions: &["harness BER writer (src/ber.rs) and entry model (src/model.rs)", "attribute descriptions and DN are UTF-8 (LDAPString) as in every well-formed entry"],
         lanes: vec![Box::new(PLane { name: "entries", cases: |t| t.pick(6_000, 150_000), strat, check })],
         workers: (8, 16),
